@@ -426,6 +426,52 @@ def add_bad_records(text, which=None):
     return "\n".join(lines) + "\n"
 
 
+def renumber(text, offset):
+    """Shift all residue numbers (negative numbers, numbers crossing 9999 -> column overflow
+    is avoided by clamping)."""
+    out = []
+    for l in text.splitlines():
+        if _is_atom(l):
+            try:
+                n = int(l[22:26]) + int(offset)
+            except ValueError:
+                out.append(l)
+                continue
+            n = max(-999, min(9999, n))
+            l = l[:22] + f"{n:4d}" + l[26:]
+        out.append(l)
+    return "\n".join(out) + "\n"
+
+
+def rename_waters(text, name):
+    out = []
+    for l in text.splitlines():
+        if _is_atom(l) and l[17:20].strip() in WATER_NAMES:
+            l = l[:17] + name.rjust(3)[:3] + l[20:]
+        out.append(l)
+    return "\n".join(out) + "\n"
+
+
+def column_noise(text, mode):
+    """Columns that carry no structural information for pdb2pqr: occupancy, B factor,
+    segment id, element, charge."""
+    out = []
+    for l in text.splitlines():
+        if _is_atom(l):
+            l = l.ljust(80)
+            if mode == "blank":
+                l = l[:54] + " " * 26
+            elif mode == "zero_occ":
+                l = l[:54] + "  0.00" + l[60:]
+            elif mode == "segid":
+                l = l[:72] + "SEG1" + l[76:]
+            elif mode == "noelement":
+                l = l[:76] + "    "
+            l = l.rstrip()
+        out.append(l)
+    return "\n".join(out) + "\n"
+
+
 def rename_water_oxygen(text, newname="OX", which=0):
     """The which-th water loses its recognisable oxygen (its O atom is renamed)."""
     lines = text.splitlines()
@@ -467,6 +513,12 @@ def structure_text(cfg):
         text = rename(text, cfg["rename"])
     if cfg.get("chains"):
         text = split_chains(text, cfg["chains"])
+    if cfg.get("renumber"):
+        text = renumber(text, cfg["renumber"])
+    if cfg.get("water_name"):
+        text = rename_waters(text, cfg["water_name"])
+    if cfg.get("columns"):
+        text = column_noise(text, cfg["columns"])
     if cfg.get("water_no_oxygen") is not None:
         text = rename_water_oxygen(text, which=int(cfg["water_no_oxygen"]))
     if cfg.get("many_chains"):
